@@ -119,8 +119,16 @@ func clip(s string, n int) string {
 // ---------------------------------------------------------------------------------------------
 // routes
 
+// env is the engine of one case, built on first use (the routes without environment never need it)
 type env struct {
-	e *twig.Engine
+	eng *twig.Engine
+}
+
+func (en *env) e() *twig.Engine {
+	if en.eng == nil {
+		en.eng = newEngine()
+	}
+	return en.eng
 }
 
 var filterNames = []string{"escape", "e"}
@@ -150,7 +158,9 @@ var tplRoutes = []struct{ name, src string }{
 // above U+3000 on these only
 var coreRoutes = map[string]bool{"print": true}
 
-func newEnv() *env {
+func newEnv() *env { return &env{} }
+
+func newEngine() *twig.Engine {
 	e := twig.New()
 	e.EnableSandbox(twig.NewDefaultSecurityPolicy())
 	must(e.RegisterString("plain", "{{ v }}"))
@@ -163,7 +173,7 @@ func newEnv() *env {
 			must(e.RegisterString(r.name+"-"+f, fmt.Sprintf(r.src, f)))
 		}
 	}
-	return &env{e: e}
+	return e
 }
 
 func must(err error) {
@@ -185,7 +195,7 @@ func allRoutes() []route {
 	for _, r := range tplRoutes {
 		r := r
 		rs = append(rs, route{name: r.name, core: coreRoutes[r.name], run: func(en *env, f string, v interface{}) (string, error) {
-			return en.e.Render(r.name+"-"+f, map[string]interface{}{"v": v})
+			return en.e().Render(r.name+"-"+f, map[string]interface{}{"v": v})
 		}})
 	}
 	// the built-in fallback: a render context that has no environment at all / an empty environment
@@ -217,7 +227,7 @@ func allRoutes() []route {
 	}})
 	// direct application of the registered filter through a context with the engine's environment
 	rs = append(rs, route{name: "applyfilter-env", run: func(en *env, f string, v interface{}) (string, error) {
-		ctx := twig.NewRenderContext(en.e.GetEnvironment(), nil, en.e)
+		ctx := twig.NewRenderContext(en.e().GetEnvironment(), nil, en.e())
 		defer ctx.Release()
 		r, err := ctx.ApplyFilter(f, v)
 		if err != nil {
@@ -236,7 +246,7 @@ func allRoutes() []route {
 			m := twig.NewMacroNode("m", []string{"p"}, nil, []twig.Node{twig.NewTextNode("{{"+pad+"p"+pad+"|"+pad+f+pad+"}}", 1)}, 1)
 			var ctx *twig.RenderContext
 			if withEnv {
-				ctx = twig.NewRenderContext(en.e.GetEnvironment(), nil, en.e)
+				ctx = twig.NewRenderContext(en.e().GetEnvironment(), nil, en.e())
 			} else {
 				ctx = twig.NewRenderContext(nil, nil, nil)
 			}
@@ -394,7 +404,7 @@ func encodeCP(cp int) string {
 func blocks(thorough bool) []block {
 	var bs []block
 	// 1. specials: empty, single significant characters, the five together
-	bs = append(bs, block{family: "special", key: "special/basic", gen: func(f func(string)) {
+	bs = append(bs, block{family: "special", key: "0-special/basic", gen: func(f func(string)) {
 		for _, s := range []string{"", "<", ">", "&", "\"", "'", "<>&\"'", "'\"&><", "a<b>c&d\"e'f", "&&", "<<", "''", "\"\"", ">>",
 			"<script>alert('x' & \"y\")</script>", "&amp;", "&lt;script&gt;", "&#39;", "&#x27;", "&quot;"} {
 			f(s)
@@ -403,7 +413,7 @@ func blocks(thorough bool) []block {
 	// 2. every byte string of length <= 2, one block per first byte
 	for a := 0; a < 256; a++ {
 		a := a
-		bs = append(bs, block{family: "bytes2", key: fmt.Sprintf("bytes2/%02x", a), gen: func(f func(string)) {
+		bs = append(bs, block{family: "bytes2", key: fmt.Sprintf("1-bytes2/%02x", a), gen: func(f func(string)) {
 			f(string([]byte{byte(a)}))
 			for b := 0; b < 256; b++ {
 				f(string([]byte{byte(a), byte(b)}))
@@ -413,7 +423,7 @@ func blocks(thorough bool) []block {
 	// 3. already-escaped forms: every pair and triple, one block per first element
 	for i := range refAlphabet {
 		i := i
-		bs = append(bs, block{family: "refs", key: fmt.Sprintf("refs/%d", i), gen: func(f func(string)) {
+		bs = append(bs, block{family: "refs", key: fmt.Sprintf("2-refs/%02d", i), gen: func(f func(string)) {
 			f(refAlphabet[i])
 			for _, y := range refAlphabet {
 				f(refAlphabet[i] + y)
@@ -425,48 +435,57 @@ func blocks(thorough bool) []block {
 			}
 		}})
 	}
-	// 4. every string of length <= L over the alphabet, one block per 2-symbol prefix
+	// 4. every string of length <= L over the alphabet, blocks of 111 strings
 	L := 5
 	if thorough {
 		L = 6
 	}
-	bs = append(bs, block{family: "alpha", key: "alpha/len<=2", gen: func(f func(string)) {
-		for _, a := range alphabet {
-			f(a)
-		}
-		for _, a := range alphabet {
-			for _, b := range alphabet {
-				f(a + b)
+	P := L - 2 // blocks are keyed by a prefix of P symbols and hold the 111 strings of length P..L with that prefix
+	bs = append(bs, block{family: "alpha", key: fmt.Sprintf("3-alpha/0-len<%d", P), gen: func(f func(string)) {
+		level := []string{""}
+		for n := 0; n < P; n++ {
+			var next []string
+			for _, s := range level {
+				if n > 0 {
+					f(s)
+				}
+				for _, a := range alphabet {
+					next = append(next, s+a)
+				}
 			}
+			level = next
 		}
 	}})
-	for i := range alphabet {
-		for j := range alphabet {
-			for k := range alphabet {
-				p := alphabet[i] + alphabet[j] + alphabet[k]
-				bs = append(bs, block{family: "alpha", key: fmt.Sprintf("alpha/L%d/%d%d%d", L, i, j, k), gen: func(f func(string)) {
-					// breadth first: shorter strings first
-					level := []string{p}
-					for n := 3; n <= L; n++ {
-						var next []string
-						for _, s := range level {
-							f(s)
-							if n < L {
-								for _, a := range alphabet {
-									next = append(next, s+a)
-								}
+	var prefixes func(p string, idx string, n int)
+	prefixes = func(p string, idx string, n int) {
+		if n == P {
+			bs = append(bs, block{family: "alpha", key: fmt.Sprintf("3-alpha/L%d/%s", L, idx), gen: func(f func(string)) {
+				// breadth first: shorter strings first
+				level := []string{p}
+				for n := P; n <= L; n++ {
+					var next []string
+					for _, s := range level {
+						f(s)
+						if n < L {
+							for _, a := range alphabet {
+								next = append(next, s+a)
 							}
 						}
-						level = next
 					}
-				}})
-			}
+					level = next
+				}
+			}})
+			return
+		}
+		for i, a := range alphabet {
+			prefixes(p+a, idx+strconv.Itoa(i), n+1)
 		}
 	}
+	prefixes("", "", 0)
 	// 5. lengths around growth boundaries of the output buffer, and very long strings
 	for _, unit := range []string{"&", "<", "\"", "'", "a&", "é<", "\xff>"} {
 		unit := unit
-		bs = append(bs, block{family: "length", key: fmt.Sprintf("length/%q", unit), gen: func(f func(string)) {
+		bs = append(bs, block{family: "length", key: fmt.Sprintf("4-length/%q", unit), gen: func(f func(string)) {
 			for _, n := range []int{6, 7, 8, 9, 15, 16, 17, 31, 32, 33, 63, 64, 65, 127, 128, 129, 255, 256, 257, 1023, 1024, 1025, 4095, 4096, 4097, 65535, 65536, 65537} {
 				f(strings.Repeat(unit, n))
 				f(strings.Repeat("a", n) + unit)
@@ -475,16 +494,16 @@ func blocks(thorough bool) []block {
 	}
 	for i, unit := range []string{"a", "<>&\"'", "é\xff&", "&amp;"} {
 		unit := unit
-		bs = append(bs, block{family: "long", key: fmt.Sprintf("long/1MiB/%d", i), gen: func(f func(string)) {
+		bs = append(bs, block{family: "long", key: fmt.Sprintf("5-long/1MiB/%d", i), gen: func(f func(string)) {
 			f(strings.Repeat(unit, (1<<20)/len(unit)+1))
 		}})
 	}
-	// 6. every code point, alone and embedded in a?&, blocks of 256
-	for base := 0; base <= 0x10FFFF; base += 256 {
+	// 6. every code point, alone and embedded in a?&, blocks of 32
+	for base := 0; base <= 0x10FFFF; base += 32 {
 		base := base
-		bs = append(bs, block{family: "codepoint", key: fmt.Sprintf("cp/%06x", base), onlyCore: !thorough && base >= 0x3000,
+		bs = append(bs, block{family: "codepoint", key: fmt.Sprintf("6-cp/%06x", base), onlyCore: !thorough && base >= 0x3000,
 			gen: func(f func(string)) {
-				for cp := base; cp < base+256; cp++ {
+				for cp := base; cp < base+32; cp++ {
 					s := encodeCP(cp)
 					f(s)
 					f("a" + s + "&")
@@ -553,7 +572,7 @@ func runNonString(nv nsValue, routes []route) *vlib.Outcome {
 	o := &vlib.Outcome{Nontrivial: true, Counters: map[string]int64{}}
 	want := nv.want
 	if nv.twin {
-		w, err := en.e.Render("plain", map[string]interface{}{"v": nv.v()})
+		w, err := en.e().Render("plain", map[string]interface{}{"v": nv.v()})
 		if err != nil {
 			o.Violation = fmt.Sprintf("value %s: unfiltered print failed: %v", nv.name, err)
 			return o
@@ -618,7 +637,7 @@ func main() {
 		Rule: "every input of the bounded families (all code points alone and inside a?&, all byte strings of length <= 2, all strings of length <= 5 (thorough 6) over " +
 			"{< > & \" ' a é 0xFF ; #}, all pairs and triples of 23 already-escaped forms and fragments, boundary lengths up to 64 KiB, 1 MiB strings, 21 non-string values) " +
 			"x every route (16 template positions, direct ApplyFilter with the engine's / an empty / no environment, macro text with and without environment) x both names; " +
-			"a case is one block of inputs (<= 1111 strings) on a fresh engine; non-trivial = the block contains a significant character or a byte >= 0x80",
+			"a case is one block of inputs (<= 553 strings) on a fresh engine; non-trivial = the block contains a significant character or a byte >= 0x80",
 		Assumptions: []string{
 			"strings longer than 1 MiB + 5 bytes and alphabet strings longer than the bound are not explored",
 			"in the quick tier code points >= U+3000 are swept on one route per escaping mechanism only (print tag = registered filter, ApplyFilter without environment = built-in fallback, macro text with and without environment); the thorough tier sweeps them on all routes",
@@ -645,8 +664,8 @@ func main() {
 			}
 			for _, nv := range nonStrings() {
 				nv := nv
-				t.Case("nonstring/"+nv.name, func() *vlib.Outcome { return runNonString(nv, main) })
-				t.Case("nonstring/"+nv.name+"#"+side[0].name, func() *vlib.Outcome { return runNonString(nv, side) })
+				t.Case("0-nonstring/"+nv.name, func() *vlib.Outcome { return runNonString(nv, main) })
+				t.Case("0-nonstring/"+nv.name+"#"+side[0].name, func() *vlib.Outcome { return runNonString(nv, side) })
 			}
 		},
 		Extra: func(tier string, cov map[string]interface{}) {
